@@ -361,8 +361,13 @@ class _ResourceOperations:
         else:
             data = contents
         fscommands = self._get_fscommands(resource)
+        # Writing creates the file when it is not there (the undo of a
+        # change to a file that was removed outside rope).
+        created = not resource.exists()
         fscommands.write(resource.real_path, data)
         for observer in list(self.project.observers):
+            if created:
+                observer.resource_created(resource)
             observer.resource_changed(resource)
 
     def move(self, resource, new_resource):
